@@ -112,6 +112,13 @@ type c18Draw struct {
 	kind string
 }
 
+// values an IdP or a user could choose for InResponseTo / NameID / SessionIndex, shaped to smuggle a second ID attribute
+var c18Hostile = []string{
+	`_req-1" ID="0-chosen-by-the-idp`, `_req-1' ID='0-chosen-by-the-idp`, `x" xmlns:y="urn:y" y:ID="0-chosen`, `"><samlp:Extensions ID="0-chosen"/><x a="`,
+	`_req-1&quot; ID=&quot;0-chosen`, "_req-1\" ID=\"0-chosen\t", `]]><!-- --> ID="0-chosen"`, `_req-1" ID="_00000000-0000-4000-8000-000000000000`,
+}
+
+// c18IDOf: the ID a RECIPIENT sees — the document is serialised and parsed again; it must be the ID the builder put in
 func c18IDOf(doc *etree.Document, err error) (string, error) {
 	if err != nil {
 		return "", err
@@ -122,6 +129,27 @@ func c18IDOf(doc *etree.Document, err error) (string, error) {
 	a := doc.Root().SelectAttr("ID")
 	if a == nil {
 		return "", fmt.Errorf("no ID attribute")
+	}
+	b, werr := doc.WriteToBytes()
+	if werr != nil {
+		return "", werr
+	}
+	d2 := etree.NewDocument()
+	d2.ReadSettings.PreserveDuplicateAttrs = true
+	if perr := d2.ReadFromBytes(b); perr != nil || d2.Root() == nil {
+		return "", fmt.Errorf("built document does not parse back: %v", perr)
+	}
+	n, first := 0, ""
+	for _, at := range d2.Root().Attr {
+		if at.Space == "" && at.Key == "ID" {
+			if n == 0 {
+				first = at.Value
+			}
+			n++
+		}
+	}
+	if n != 1 || first != a.Value {
+		return fmt.Sprintf("[%d ID attributes after serialisation; first %q, built %q]", n, first, a.Value), nil
 	}
 	return a.Value, nil
 }
@@ -156,6 +184,12 @@ func c18Draws(c *Ctx, n int) {
 				signed := k%97 == 0 // a few through the signing builders (same ID creation; Reference URI must name it)
 				var id string
 				var err error
+				// caller-supplied values (they come from the IdP's request or from the user session) never take part in the ID
+				reqID, nameID, sess := "_req1", "alice@example.com", "_s1"
+				if k%5 == 3 {
+					h := c18Hostile[(g+k/5)%len(c18Hostile)]
+					reqID, nameID, sess = h, h, h
+				}
 				switch kind {
 				case "AuthnRequest":
 					if signed {
@@ -165,15 +199,15 @@ func c18Draws(c *Ctx, n int) {
 					}
 				case "LogoutRequest":
 					if signed {
-						id, err = c18IDOf(sp.BuildLogoutRequestDocument("alice@example.com", "_s1"))
+						id, err = c18IDOf(sp.BuildLogoutRequestDocument(nameID, sess))
 					} else {
-						id, err = c18IDOf(sp.BuildLogoutRequestDocumentNoSig("alice@example.com", "_s1"))
+						id, err = c18IDOf(sp.BuildLogoutRequestDocumentNoSig(nameID, sess))
 					}
 				case "LogoutResponse":
 					if signed {
-						id, err = c18IDOf(sp.BuildLogoutResponseDocument(statusOK, "_req1"))
+						id, err = c18IDOf(sp.BuildLogoutResponseDocument(statusOK, reqID))
 					} else {
-						id, err = c18IDOf(sp.BuildLogoutResponseDocumentNoSig(statusOK, "_req1"))
+						id, err = c18IDOf(sp.BuildLogoutResponseDocumentNoSig(statusOK, reqID))
 					}
 				default:
 					id = uuid.NewV4().String()
